@@ -3,7 +3,8 @@
    cache (pkg/apply/cache/resource_cache_map.go, written by runner.go before
    StatusUpdate is called) and the actuation table (pkg/inventory/manager.go,
    Model/ActuationTable.v).  Function-by-function transcription of the code as
-   it is now (with the UID check in the `failed` branch of StatusUpdate).
+   it is now (with the UID checks in the `failed` and `default` branches of
+   StatusUpdate).
    Generic in the identifier type.  No proofs in this file. *)
 From Coq Require Import List Bool Arith NArith ZArith.
 From CliUtils Require Import Model.ObjSet Model.ActuationTable.
@@ -181,8 +182,16 @@ Section WaitTask.
         finish (pend ++ [i]) (remove eqb fl i) (set_rec t i RPending) ca d [(i, WPending)]
       else finish pend fl t ca d []
     else
-      if negb (reconciled_by_id c t ca i) then
+      (* default: the object left both sets (reconciled, or replaced) *)
+      if changed_uid t ca i then
+        if is_current c && negb (is_reconcile eqb t i RFailed) then
+          let '(t', e) := handle_changed_uid c t i in
+          finish pend fl t' ca d [e]
+        else finish pend fl t ca d []
+      else if negb (reconciled_by_id c t ca i) then
         finish (pend ++ [i]) fl (set_rec t i RPending) ca d [(i, WPending)]
+      else if is_reconcile eqb t i RFailed then
+        finish pend fl (set_rec t i RSucceeded) ca d [(i, WSuccessful)]
       else finish pend fl t ca d [].
 
   (* ---- sendTimeoutEvents ----------------------------------------------- *)
